@@ -259,8 +259,8 @@ func runC01History(c *Ctx) {
 		ns := &relabelNS{labels: map[string]map[string]string{"n0": {}, "n1": {}, "n2": {}}}
 		defaults := genDefaults(r)
 		adm := &admission.Admission{
-			Configuration:    &admissionapi.PodSecurityConfiguration{Defaults: defaults},
-			Evaluator:        realEvaluator, Metrics: &recorder{}, PodSpecExtractor: admission.DefaultPodSpecExtractor{}, NamespaceGetter: ns, PodLister: &fakeLister{}}
+			Configuration: &admissionapi.PodSecurityConfiguration{Defaults: defaults},
+			Evaluator:     realEvaluator, Metrics: &recorder{}, PodSpecExtractor: admission.DefaultPodSpecExtractor{}, NamespaceGetter: ns, PodLister: &fakeLister{}}
 		if err := adm.CompleteConfiguration(); err != nil {
 			panic(err)
 		}
@@ -298,7 +298,30 @@ func runC01History(c *Ctx) {
 func runC06(c *Ctx) {
 	n := sizes(c, 4000, 80000)
 	k := AdmitKnobs{FaultPct: 3, SynPct: 70, SubPct: 10, ExemptHeavy: true}
-	admitSweep(c, n, k, "allowed ann evalCalls metrics", "allowed ann nEvalCalls", func(a *AdmitCase, g AdmitOut) {
+	extra := c06Oracle(c)
+	admitSweep(c, n, k, "allowed ann evalCalls metrics", "allowed ann nEvalCalls", extra, nil)
+	// namespace updates that do run the dry run, over populations with exempt-runtime-class members inside controller groups
+	kn := AdmitKnobs{Kind: "ns", FaultPct: 0, SynPct: 70, SubPct: 0, ExemptHeavy: true, Pods: func(r *Rng) []*corev1.Pod { return genPopulation(r, r.Intn(13), []string{"alpha", "exrc", "beta"}) }}
+	admitSweep(c, n/4, kn, "allowed ann evalCalls metrics", "allowed ann nEvalCalls", extra, func(r *Rng, a *AdmitCase) {
+		nsMutate(r, a)
+		if !inList("exrc", a.ExRC) && r.Chance(2, 3) {
+			a.ExRC = append(a.ExRC, "exrc")
+		}
+		if r.Chance(1, 2) { // keep the namespace and the user out of the exemption lists so that the dry run is reached
+			a.NS, a.User = "ns", "u"
+			a.Name = a.NS
+			if a.Obj.Kind == "namespace" {
+				a.Obj.NSName = a.NS
+			}
+			if a.Old.Kind == "namespace" {
+				a.Old.NSName = a.NS
+			}
+		}
+	})
+}
+
+func c06Oracle(c *Ctx) func(a *AdmitCase, g AdmitOut) {
+	return func(a *AdmitCase, g AdmitOut) {
 		in := a.opJSON()
 		if a.Res == "namespaces" {
 			if g.AnnExempt != nil {
@@ -357,7 +380,7 @@ func runC06(c *Ctx) {
 		if !nsMatch && !userMatch && !rcMatch && g.AnnExempt != nil {
 			c.Violate(Finding{Desc: "no exemption matches but the request is exempt", Key: "exempt-without-match", Input: in})
 		}
-	}, nil)
+	}
 }
 
 // ---------------------------------------------------------------- C07
@@ -632,6 +655,9 @@ func popGen(maxN int, big bool) func(r *Rng) []*corev1.Pod {
 		}
 		var ps []*corev1.Pod
 		exrc := []string{"alpha", "exrc"}
+		if n < 100 && r.Bool() {
+			return genPopulation(r, n, exrc)
+		}
 		for j := 0; j < n; j++ {
 			ps = append(ps, genPopPod(r, j, exrc))
 		}
